@@ -259,6 +259,7 @@ M = [
 # mutants that turned out to be behaviour-preserving with respect to the property (argued, not observed)
 EQUIVALENT = {
     "c01_create_group_forgets_subst": "the first new path segment keeps its SUBST mark and shadows everything older below it, so the mark on the final group is redundant",
+    "c11_commit_rewrites_previous_block": "re-saves the previous container's user block IN PLACE with byte-identical content (same inode, same bytes): nothing a byte-level ledger or a crash of the new file's write can see; it was only observable while the in-memory user block could differ from the disk (repaired by 67e9d71)",
     "c08_contains_unguarded": "membership of a reserved name is still False (the filtered key listing decides), which is a rejection; absolute paths on local-only nodes still raise in __getitem__",
     "c18_order_permuted": "only the relative order of a directory and its MODIFIED children changes; the property constrains removals-before-parent and additions-after-parent, which still hold",
     "c20_constants_not_listed": "pydantic lists constant fields as properties anyway because add_const_fields registers them as model fields",
